@@ -319,6 +319,87 @@ def rand_history(rng, backend_name):
     return steps
 
 
+# ---------------------------------------------------------------------------------------------- call sequences on the same input
+ATTRS = ('_root',) + ELEMS
+
+
+def apply_mutation(loc_obj, mutation):
+    for attr, value in mutation:
+        setattr(loc_obj, attr, value)
+
+
+def rand_mutation(rng, parsed, towards=None):
+    """what a caller may do with a location object it got back: clear elements (to filter a whole ward), overwrite
+    elements / the root; `towards`: make it agree with that location"""
+    if towards is not None:
+        return [[a, v] for a, v in zip(ATTRS, towards)]
+    k = rng.random()
+    if k < 0.4:
+        return [[a, None] for a in rng.sample(ELEMS, rng.randrange(1, 4))]
+    if k < 0.8:
+        return [[a, (getattr(parsed, a) or '') + 'x'] for a in rng.sample(ELEMS, rng.randrange(1, 4))]
+    return [['_root', parsed._root + 'x'], [rng.choice(ELEMS), rand_string(rng)]]
+
+
+def stateful_parse(ctx, s, mutation_of, emit=None, origin=None):
+    """from_scope_string(s), mutate the returned object, from_scope_string(s) again: the second result is a fresh object
+    that equals the first one as it was returned (and the location `origin` the string was made from)"""
+    case = {'op': 'reparse', 'scope': s}
+    try:
+        r1 = SdcLocation.from_scope_string(s)
+    except Exception as ex:  # noqa: BLE001
+        first, r1 = _exc(ex), None
+    else:
+        first = 'ok ' + show_loc(loc_tuple(r1))
+        mutation = mutation_of(r1)
+        case['mutation'] = mutation
+        apply_mutation(r1, mutation)
+    try:
+        r2 = SdcLocation.from_scope_string(s)
+        second = 'ok ' + show_loc(loc_tuple(r2))
+    except Exception as ex:  # noqa: BLE001
+        second, r2 = _exc(ex), None
+    if r1 is not None and r2 is r1:
+        ctx.fail('from-scope-string:returns-shared-object', f'two calls of from_scope_string({s!r}) return the same mutable object', case)
+    elif second != first:
+        ctx.fail('from-scope-string:depends-on-earlier-results',
+                 f'from_scope_string({s!r}) returned {first!r}; after the caller changed that object ({case.get("mutation")}) the same call returns {second!r}', case)
+    elif origin is not None and origin[0] != '' and second != 'ok ' + show_loc(origin):
+        ctx.fail('roundtrip:other', f'{origin!r} -> {s!r} -> {second}', case)
+    if emit and encodable(s):
+        emit(f'parse {split_flag(s)} {hx(s)}', second, case)
+    ctx.count('reparse:' + second.split(' ')[0] + (' ' + second.split(' ')[1] if second.startswith('err') else ''))
+
+
+def stateful_filter(ctx, probe, scopes, expected, mutation_towards, rng, emit=None):
+    """filter, let a caller change location objects parsed from the same scope strings, filter again (same probe): the
+    selection is the same and is the one known by construction"""
+    case = {'op': 'refilter', 'self': list(probe), 'scopes': scopes, 'expected': expected, 'towards': list(mutation_towards) if mutation_towards else None}
+    svc = mk_services([scopes])
+    try:
+        first = len(mk_loc(probe).filter_services_inside(svc)) == 1
+        for sc in scopes:
+            try:
+                obj = SdcLocation.from_scope_string(sc)
+            except Exception:  # noqa: BLE001, S112
+                continue
+            apply_mutation(obj, rand_mutation(rng, obj, mutation_towards))
+        second = len(mk_loc(probe).filter_services_inside(mk_services([scopes]))) == 1
+    except Exception as ex:  # noqa: BLE001
+        ctx.fail('filter-raises:' + type(ex).__name__, f'{ex!r}', case)
+        return
+    if first != expected:
+        ctx.fail('filter-multi-scope:' + ('outside-service-kept' if first else 'inside-service-dropped'),
+                 f'probe {probe!r}, scopes {scopes}: selected={first}, by construction {expected}', case)
+    elif second != first:
+        ctx.fail('filter:depends-on-earlier-results',
+                 f'filter_services_inside of {probe!r} on scopes {scopes} selected={first}; after a caller changed location objects parsed from '
+                 f'these scope strings the same call gives selected={second}', case)
+    if emit and encodable(*scopes):
+        emit(_filter_line(probe, [scopes]), 'ok ' + ('0' if second else ''), case)
+    ctx.count(f'refilter:{expected}')
+
+
 DEVICE_TYPES = [(q.namespace, q.localname) for q in SdcV1Definitions.MedicalDeviceTypesFilter]
 OTHER_TYPE = ('http://example.org/verif', 'Other')
 
@@ -664,6 +745,10 @@ def run_case_oracle(ctx, case, rng):
         oracle_filter_expected(ctx, tuple(case['self']), case['services'], case['expected'])
     elif case['op'] == 'filter':
         oracle_filter(ctx, tuple(case['self']), case['services'])
+    elif case['op'] == 'reparse':
+        stateful_parse(ctx, case['scope'], lambda obj: case.get('mutation') or rand_mutation(rng, obj))
+    elif case['op'] == 'refilter':
+        stateful_filter(ctx, tuple(case['self']), case['scopes'], case['expected'], tuple(case['towards']) if case['towards'] else None, rng)
     elif case['op'] == 'history':
         run_history(ctx, MdibBackend if case['backend'] == 'mdib' else ContainerBackend, [(k, tuple(t)) for k, t in case['steps']], rng)
     elif case['op'] == 'search':
@@ -871,6 +956,38 @@ def run(ctx):
         ctx.count('search:' + ('enclosing' if encloses else 'elsewhere') + f':found-{min(len(expected), 3)}')
         add(_search_line(t, remote), impl, {'op': 'search', 'self': list(t), 'remote': remote, 'expected': expected}, True)
 
+    # 2e. the functions are pure: call sequences on the SAME scope string with the caller changing returned objects in between
+    def emit2(line, impl, case):
+        add(line, impl, case, True)
+    for _ in range(ctx.n(600, 6000)):
+        t = rand_loc(rng, root=DEFAULT_ROOT if rng.random() < 0.6 else None)
+        if t[0] == '':
+            continue
+        k = rng.random()
+        origin = None
+        if k < 0.45:
+            s_, origin = mk_loc(t).scope_string, t
+        elif k < 0.8 and any(t[1:]):
+            s_, origin = published_scope(t), (DEFAULT_ROOT, *t[1:])
+        else:
+            s_ = rand_foreign_scope(rng)
+        stateful_parse(ctx, s_, lambda obj: rand_mutation(rng, obj), emit2, origin)
+        if origin is not None:
+            # a probe that encloses the device / one that differs in an element; the caller's edits push the parsed
+            # object towards the opposite answer
+            probe = enclosing_of(origin, rng.randrange(64), origin[0])
+            inside = True
+            towards = tuple([origin[0] + 'x'] + [(v or '') + 'x' for v in origin[1:]])
+            if rng.random() < 0.5:
+                j = 1 + rng.randrange(6)
+                probe = list(probe)
+                probe[j] = (origin[j] or '') + 'y'
+                probe = tuple(probe)
+                inside = False
+                towards = tuple([probe[0]] + [p if p is not None else v for p, v in zip(probe[1:], origin[1:])])
+            scopes = [s_] + ([rng.choice(NON_LOC_SCOPES)] if rng.random() < 0.5 else [])
+            stateful_filter(ctx, probe, scopes, inside, towards, rng, emit2)
+
     # 2d. histories of location changes of ONE provider: the same state object updated again and again, and a real
     #     ProviderMdib (set_location / update of the associated state in a context state transaction)
     def emit(line, impl, case):
@@ -951,6 +1068,8 @@ def search(ctx):
         oracle_filter(ctx, rand_loc(rng), [[rand_foreign_scope(rng)]])
         cls = rng.choice([ContainerBackend, MdibBackend])
         run_history(ctx, cls, rand_history(rng, cls.name), rng)
+        if t[0] != '' and encodable(*t):
+            stateful_parse(ctx, mk_loc(t).scope_string, lambda obj: rand_mutation(rng, obj), None, t)
         if ctx.failures:
             return
 
